@@ -18,6 +18,10 @@ Require Import Urcu.LfsRcu.LfsRcu.
 Require Import Urcu.LfsRcu.LfsRcuProof.
 Require Import Urcu.LfsRcu.LfsRcuExec.
 Require Import Urcu.LfsRcu.LfsRcuLin.
+Require Import Urcu.WfsMx.WfsMx.
+Require Import Urcu.WfsMx.WfsMxProof.
+Require Import Urcu.WfsMx.WfsMxExec.
+Require Import Urcu.WfsMx.WfsMxLin.
 Import ListNotations.
 Local Open Scope N_scope.
 
@@ -30,7 +34,7 @@ Print Assumptions C11_wfstack_chain_all_schedules.
 
 (* the model's end sentinel is CDS_WFS_END of the source *)
 Theorem C11_wfstack_end_is_source_constant :
-    vend = cds_wfs_end.
+    Wfs.vend = cds_wfs_end.
 Proof. exact (@Urcu.Wfs.WfsRun.vend_is_source_constant). Qed.
 Print Assumptions C11_wfstack_end_is_source_constant.
 
@@ -113,58 +117,130 @@ Print Assumptions C11_wfstack_linearizable_lifo.
 
 (* legacy cds_lfs_rcu (no mutex: any number of concurrent pushers and poppers, poppers inside read-side sections, popped nodes pushed again only after a grace period), every schedule: the memory chain spells the abstract stack, every node has exactly one owner, a popper's held reference is either still in the stack with an unchanged link or protected by its section *)
 Theorem C11_rculfstack_invariant_all_schedules :
-    forall (NT : nat) (threads : nat -> list op),
-    (forall t : nat, NoDup (pushes (threads t)) /\ ~ In 0 (pushes (threads t))) ->
-    (forall (t u : nat) (n : N), In n (pushes (threads t)) -> In n (pushes (threads u)) -> t = u) ->
+    forall (NT : nat) (threads : nat -> list LfsRcu.op),
+    (forall t : nat, NoDup (LfsRcuProof.pushes (threads t)) /\ ~ In 0 (LfsRcuProof.pushes (threads t))) ->
+    (forall (t u : nat) (n : N),
+    In n (LfsRcuProof.pushes (threads t)) -> In n (LfsRcuProof.pushes (threads u)) -> t = u) ->
     (forall t : nat, (NT <= t)%nat -> threads t = []) ->
-    forall cs : list nat, Inv NT (run NT true cs (init threads)).
+    forall cs : list nat, LfsRcuProof.Inv NT (LfsRcu.run NT true cs (LfsRcu.init threads)).
 Proof. exact (@Urcu.LfsRcu.LfsRcuProof.rculfs_invariant_all_schedules). Qed.
 Print Assumptions C11_rculfstack_invariant_all_schedules.
 
 (* no ABA: when a popper's cmpxchg succeeds the node it takes is the top of the abstract stack and the successor it installs is the node below - however long it was delayed between its loads and the cmpxchg *)
 Theorem C11_rculfstack_pop_never_stale :
-    forall (NT : nat) (s : st) (t : nat) (h nx : N),
-    Inv NT s ->
-    tpc (th s t) = O_Cas h nx ->
-    head s = h ->
+    forall (NT : nat) (s : LfsRcu.st) (t : nat) (h nx : N),
+    LfsRcuProof.Inv NT s ->
+    LfsRcu.tpc (LfsRcu.th s t) = O_Cas h nx ->
+    LfsRcu.head s = h ->
     exists l : list N,
-    stk s = h :: l /\
-    chainm (nxt s) nx l /\
-    stk (step NT true t s) = l /\
-    head (step NT true t s) = nx /\ tpc (th (step NT true t s) t) = O_Exit h.
+    LfsRcu.stk s = h :: l /\
+    LfsRcu.chainm (LfsRcu.nxt s) nx l /\
+    LfsRcu.stk (LfsRcu.step NT true t s) = l /\
+    LfsRcu.head (LfsRcu.step NT true t s) = nx /\
+    LfsRcu.tpc (LfsRcu.th (LfsRcu.step NT true t s) t) = O_Exit h.
 Proof. exact (@Urcu.LfsRcu.LfsRcuProof.pop_cmpxchg_never_stale). Qed.
 Print Assumptions C11_rculfstack_pop_never_stale.
 
 (* sensitivity: with immediate reuse a delayed popper installs a node another thread owns (concrete three-thread run): the grace period is what excludes ABA *)
 Theorem C11_rculfstack_reuse_without_grace_period_refuted :
-    let s := run 3 false aba_sched (init aba_threads) in
-    ~ chainm (nxt s) (head s) (stk s) /\ head s = 3 /\ stk s = [2].
+    let s := LfsRcu.run 3 false aba_sched (LfsRcu.init LfsRcuProof.aba_threads) in
+    ~ LfsRcu.chainm (LfsRcu.nxt s) (LfsRcu.head s) (LfsRcu.stk s) /\
+    LfsRcu.head s = 3 /\ LfsRcu.stk s = [2].
 Proof. exact (@Urcu.LfsRcu.LfsRcuProof.reuse_without_grace_period_refuted). Qed.
 Print Assumptions C11_rculfstack_reuse_without_grace_period_refuted.
 
 (* every action sequence accepted by the executable acceptor fed with the projected traces of static/rculfstack.h keeps that invariant *)
 Theorem C11_accepted_rculfstack_trace_keeps_invariant :
-    forall (NT : nat) (threads : nat -> list op),
-    (forall t : nat, NoDup (pushes (threads t)) /\ ~ In 0 (pushes (threads t))) ->
-    (forall (t u : nat) (n : N), In n (pushes (threads t)) -> In n (pushes (threads u)) -> t = u) ->
+    forall (NT : nat) (threads : nat -> list LfsRcu.op),
+    (forall t : nat, NoDup (LfsRcuProof.pushes (threads t)) /\ ~ In 0 (LfsRcuProof.pushes (threads t))) ->
+    (forall (t u : nat) (n : N),
+    In n (LfsRcuProof.pushes (threads t)) -> In n (LfsRcuProof.pushes (threads u)) -> t = u) ->
     (forall t : nat, (NT <= t)%nat -> threads t = []) ->
-    forall (l : list ract) (s : st), rrun NT l (init threads) = Some s -> Inv NT s.
+    forall (l : list ract) (s : LfsRcu.st),
+    rrun NT l (LfsRcu.init threads) = Some s -> LfsRcuProof.Inv NT s.
 Proof. exact (@Urcu.LfsRcu.LfsRcuExec.accepted_rculfs_trace_keeps_invariant). Qed.
 Print Assumptions C11_accepted_rculfstack_trace_keeps_invariant.
 
 (* legacy cds_lfs_rcu: every history of the model - any number of concurrent pushers and poppers, reuse after a grace period, every schedule - is accepted by the LIFO automaton (push with its was-non-empty answer, pop answering the top node or NULL), linearisation points at the successful cmpxchg / the head load that sees NULL *)
 Theorem C11_rculfstack_linearizable_lifo :
-    forall (NT : nat) (threads : nat -> list op),
-    (forall t : nat, NoDup (pushes (threads t)) /\ ~ In 0 (pushes (threads t))) ->
-    (forall (t u : nat) (n : N), In n (pushes (threads t)) -> In n (pushes (threads u)) -> t = u) ->
+    forall (NT : nat) (threads : nat -> list LfsRcu.op),
+    (forall t : nat, NoDup (LfsRcuProof.pushes (threads t)) /\ ~ In 0 (LfsRcuProof.pushes (threads t))) ->
+    (forall (t u : nat) (n : N),
+    In n (LfsRcuProof.pushes (threads t)) -> In n (LfsRcuProof.pushes (threads u)) -> t = u) ->
     (forall t : nat, (NT <= t)%nat -> threads t = []) ->
     forall cs : list nat,
+    exists (a' : LfsRcuLin.ast) (L : list (Lin.op LfsRcuLin.sop N)),
+    LfsRcuLin.runl LfsRcuLin.a0 (LfsRcuLin.htrace NT cs (LfsRcu.init threads)) = Some (a', L) /\
+    legal LfsRcuLin.sop N (list N) LfsRcuLin.lspec [] L /\
+    (forall t : nat,
+    tops LfsRcuLin.sop N t L =
+    hcomp LfsRcuLin.sop N t None (LfsRcuLin.htrace NT cs (LfsRcu.init threads)) ++
+    pre LfsRcuLin.sop N (pm LfsRcuLin.sop N (list N) a' t)).
+Proof. exact (@Urcu.LfsRcu.LfsRcuLin.rculfs_linearizable). Qed.
+Print Assumptions C11_rculfstack_linearizable_lifo.
+
+(* wfstack with wait-free pushers and the mutex-protected single pop, popped nodes pushed again at once: for every schedule the logical successors spell the abstract stack, every node has one owner, a pending next-store belongs to a node still on the stack, poppers hold the mutex *)
+Theorem C11_wfstack_mutex_pop_invariant_all_schedules :
+    forall threads : nat -> list op,
+    (forall t : nat,
+    NoDup (pushes (threads t)) /\ ~ In 0 (pushes (threads t)) /\ ~ In vend (pushes (threads t))) ->
+    (forall (t u : nat) (n : N), In n (pushes (threads t)) -> In n (pushes (threads u)) -> t = u) ->
+    forall cs : list nat, Inv (run true cs (init threads)).
+Proof. exact (@Urcu.WfsMx.WfsMxProof.wfs_mutex_pop_invariant_all_schedules). Qed.
+Print Assumptions C11_wfstack_mutex_pop_invariant_all_schedules.
+
+(* when the head cmpxchg of a pop succeeds, its (head, next) pair is the top node and that node's current successor: no ABA although nodes are re-used without a grace period *)
+Theorem C11_wfstack_mutex_pop_never_stale :
+    forall threads : nat -> list op,
+    (forall t : nat,
+    NoDup (pushes (threads t)) /\ ~ In 0 (pushes (threads t)) /\ ~ In vend (pushes (threads t))) ->
+    (forall (t u : nat) (n : N), In n (pushes (threads t)) -> In n (pushes (threads u)) -> t = u) ->
+    forall (cs : list nat) (t : nat) (a b : N),
+    let s := run true cs (init threads) in
+    tpc (th s t) = Q_Cas a b ->
+    head s = a ->
+    exists l : list N, stk s = a :: l /\ chainm (gn s) b l /\ stk (step t s) = l /\ head (step t s) = b.
+Proof. exact (@Urcu.WfsMx.WfsMxProof.pop_cmpxchg_never_stale). Qed.
+Print Assumptions C11_wfstack_mutex_pop_never_stale.
+
+(* two threads are never both between the mutex acquisition and release of a pop *)
+Theorem C11_wfstack_poppers_exclude_one_another :
+    forall threads : nat -> list op,
+    (forall t : nat,
+    NoDup (pushes (threads t)) /\ ~ In 0 (pushes (threads t)) /\ ~ In vend (pushes (threads t))) ->
+    (forall (t u : nat) (n : N), In n (pushes (threads t)) -> In n (pushes (threads u)) -> t = u) ->
+    forall (cs : list nat) (t u : nat),
+    let s := run true cs (init threads) in inQ (tpc (th s t)) = true -> inQ (tpc (th s u)) = true -> t = u.
+Proof. exact (@Urcu.WfsMx.WfsMxProof.poppers_exclude_one_another). Qed.
+Print Assumptions C11_wfstack_poppers_exclude_one_another.
+
+(* without the mutex the ABA corruption is reachable (witness schedule): head points to a node another thread owns while the abstract stack is empty *)
+Theorem C11_wfstack_pop_without_mutex_refuted :
+    exists cs : list nat,
+    let s := run false cs (init aba_threads) in head s = 5 /\ stk s = [] /\ last (th s 3) = 5.
+Proof. exact (@Urcu.WfsMx.WfsMxProof.pop_without_mutex_refuted). Qed.
+Print Assumptions C11_wfstack_pop_without_mutex_refuted.
+
+(* what the extracted driver computes: an implementation trace accepted for well-formed programs ends in a model state where the invariant holds *)
+Theorem C11_accepted_wfstack_pop_trace_keeps_invariant :
+    forall (progs : list (list op)) (l : list mact),
+    accept progs l = true -> exists s : st, mrun l (init (threads_of progs)) = Some s /\ Inv s.
+Proof. exact (@Urcu.WfsMx.WfsMxExec.accept_sound). Qed.
+Print Assumptions C11_accepted_wfstack_pop_trace_keeps_invariant.
+
+(* every history of that model is linearizable w.r.t. the LIFO specification (push with its was-non-empty answer, pop = top or NULL) *)
+Theorem C11_wfstack_mutex_pop_linearizable_lifo :
+    forall threads : nat -> list op,
+    (forall t : nat,
+    NoDup (pushes (threads t)) /\ ~ In 0 (pushes (threads t)) /\ ~ In vend (pushes (threads t))) ->
+    (forall (t u : nat) (n : N), In n (pushes (threads t)) -> In n (pushes (threads u)) -> t = u) ->
+    forall cs : list nat,
     exists (a' : ast) (L : list (Lin.op sop N)),
-    runl a0 (htrace NT cs (init threads)) = Some (a', L) /\
+    runl a0 (htrace cs (init threads)) = Some (a', L) /\
     legal sop N (list N) lspec [] L /\
     (forall t : nat,
     tops sop N t L =
-    hcomp sop N t None (htrace NT cs (init threads)) ++ pre sop N (pm sop N (list N) a' t)).
-Proof. exact (@Urcu.LfsRcu.LfsRcuLin.rculfs_linearizable). Qed.
-Print Assumptions C11_rculfstack_linearizable_lifo.
+    hcomp sop N t None (htrace cs (init threads)) ++ pre sop N (pm sop N (list N) a' t)).
+Proof. exact (@Urcu.WfsMx.WfsMxLin.wfs_mutex_pop_linearizable). Qed.
+Print Assumptions C11_wfstack_mutex_pop_linearizable_lifo.
 
